@@ -41,6 +41,15 @@ package memdb
 //@   ensures [C14:search-does-not-write-the-list] unchanged(p.nodeData) && unchanged(p.kvData) && sameslice(p.nodeData, old(p.nodeData)) && sameslice(p.kvData, old(p.kvData)) && p.n == old(p.n) && p.kvSize == old(p.kvSize)
 //@   ensures [C14:predecessor-is-smaller] prev ==> (p.prevNode[0] == 0 || mcmp(nodeKey(p, p.prevNode[0]), bytes(key)) < 0)
 
+// C14 (never crashes): the height drawn for a new node fits the scratch array of predecessors (tMaxHeight slots) and
+// the per-node tower; one more and Put indexes past the array.
+//@ func (*DB).randHeight
+//@   props C14
+//@   safety off
+//@   loop 1
+//@     invariant [C14:a-tower-is-between-one-and-the-maximum-height] 1 <= h && h <= tMaxHeight
+//@   ensures [C14:a-tower-is-between-one-and-the-maximum-height] 1 <= h && h <= tMaxHeight
+
 // The backward searches (C14, C02: Prev / Last / a backward Seek of the memdb iterator stand on them). findLT: the
 // node returned is the head (nothing smaller) or holds a key smaller than the sought one, and the node that follows
 // it in the bottom list - the list of all entries - is the end or holds a key that is not smaller: nothing smaller
